@@ -123,6 +123,61 @@ func runC14(c *Ctx) {
 	c14Delimiters(c)
 	c14AccessorKeys(c)
 	c14OrderedLists(c)
+	rulePureCapture(c, "pure-capture")
+}
+
+// transformers that change the text they are given
+var textTransformers = map[string]bool{"strings.TrimSpace": true, "strings.Trim": true, "strings.TrimLeft": true, "strings.TrimRight": true, "strings.TrimPrefix": true,
+	"strings.TrimSuffix": true, "strings.TrimFunc": true, "strings.ToLower": true, "strings.ToUpper": true, "strings.Title": true, "strings.ToTitle": true,
+	"strings.Replace": true, "strings.ReplaceAll": true, "strings.Map": true, "strings.ToValidUTF8": true, "net/url.QueryUnescape": true, "net/url.PathUnescape": true,
+	"net/url.QueryEscape": true, "net/url.PathEscape": true, "strconv.Unquote": true, "strconv.Quote": true, "(*strings.Replacer).Replace": true,
+	"bytes.TrimSpace": true, "bytes.ToLower": true, "bytes.ToUpper": true, "fmt.Sprintf": true, "fmt.Sprint": true}
+
+// rulePureCapture: inside a decoder every string stored into a field of a decoded type is a constant or a pure piece of the
+// input (a substring, or an element of a Split/Fields of it): no text transformer lies between the input and the store
+// within the decoder function (sub-decoder calls are checked in their own function).
+func rulePureCapture(c *Ctx, rule string) {
+	w := c.w
+	dec := decoderSet(w)
+	n := 0
+	for _, fn := range w.All {
+		if !dec[fn] {
+			continue
+		}
+		per := 0
+		for _, st := range storesIn(fn) {
+			fa, ok := st.Addr.(*ssa.FieldAddr)
+			if !ok || !isStringType(st.Val.Type()) {
+				continue
+			}
+			ref := fieldRef(fa)
+			typ := strings.Split(ref, ".")[0]
+			if !isDecodedType(typ) {
+				continue
+			}
+			n++
+			per++
+			c.Fns[w.fname(fn)] = true
+			var culprit *ssa.Call
+			localDerives(st.Val, func(v ssa.Value) bool {
+				if cc, ok := v.(*ssa.Call); ok && textTransformers[w.calleeName(cc)] {
+					culprit = cc
+					return true
+				}
+				return false
+			})
+			key := fmt.Sprintf("%s/%s#%d", w.fname(fn), ref, per)
+			if culprit != nil {
+				c.bad(rule, key, w.ipos(st), "the text stored into "+ref+" passed through "+w.calleeName(culprit)+" inside the decoder: the component is not kept byte-identical (blanks, letter case or characters are rewritten when the header is re-encoded)")
+			} else {
+				c.ok(rule, key, w.ipos(st), "constant or pure piece of the input")
+			}
+		}
+		// elements appended to parameter lists as KeyValue literals are covered by the stores above (Key/Value fields)
+	}
+	if n < 20 {
+		c.undecided(rule, "floor", "-", fmt.Sprintf("only %d string stores into decoded types found in decoders (expected >= 20)", n))
+	}
 }
 
 // decoderSet: decoder functions and the main-package helpers they call.
@@ -825,6 +880,26 @@ func c14OrderedLists(c *Ctx) {
 				c.check(isAppendOne(st.Val, ref), rule, ref+"<-"+w.fname(fn), w.ipos(st), "decoder appends elements in input order", "decoder stores "+w.termKey(st.Val)+" into "+ref+": elements are not appended one by one in input order")
 			}
 		}
+		// the decoder really fills the list: some decoder appends to it (a list that is only initialised loses every element)
+		filled := false
+		for fn := range dec {
+			for _, st := range w.fieldStores(fn, ref) {
+				if isAppendOne(st.Val, ref) {
+					filled = true
+				}
+			}
+			for _, cs := range w.callsIn(fn) {
+				// or through the type's own adder method
+				if callee := cs.In.Common().StaticCallee(); callee != nil && w.isMain(callee) && callee.Signature.Recv() != nil && namedOf(callee.Signature.Recv().Type()) == typ {
+					for _, st := range w.fieldStores(callee, ref) {
+						if isAppendOne(st.Val, ref) {
+							filled = true
+						}
+					}
+				}
+			}
+		}
+		c.check(filled, rule, ref+"/filled-by-decoder", "-", "some decoder appends the parsed elements", "no decoder ever appends to "+ref+": the list is only initialised, so every element of the received header is dropped on decode")
 		// printers range forward over the same field
 		ranged := false
 		for _, pf := range printerFns(w, typ) {
@@ -878,6 +953,23 @@ func c14OrderedLists(c *Ctx) {
 		}
 		if !ranged {
 			c.bad(rule, ref+"/printed", "-", "no printer walks "+ref+": its elements are not re-encoded")
+		}
+	}
+	// copy() into a slice of constant length 0 copies nothing
+	for fn := range dec {
+		for _, cs := range w.callsIn(fn, "builtin:copy") {
+			dst := cs.In.Common().Args[0]
+			zero := isEmptyList(dst)
+			if !zero {
+				if r, _ := loadedField(dst); r != "" {
+					for _, st := range w.fieldStores(fn, r) {
+						if isEmptyList(st.Val) {
+							zero = true
+						}
+					}
+				}
+			}
+			c.check(!zero, rule, w.fname(fn)+"/copy-into-empty", w.ipos(cs.In), "copy destination has room", "copy() into a slice of length 0 moves no element: the decoded list stays empty")
 		}
 	}
 	c.floor(rule, 14)
